@@ -227,17 +227,31 @@ func mvisCheck(form, metric string, members []int, res map[string]map[uint32]flo
 					}
 				}
 				if !okv {
-					kind := "loss"
-					low := 0.0
-					for _, s := range must {
-						if form == "count" {
-							low++
-						} else {
-							low += mvisValue(s, i)
-						}
+					// which way is it wrong?  a proper subset that lacks a required series: loss; more than every possible
+					// series once: dup; anything else: value
+					all := append(append([]int{}, must...), may...)
+					kind := "value"
+					full, cnt := 0.0, 0.0
+					for _, s := range all {
+						full += mvisValue(s, i)
+						cnt++
 					}
-					if v > low {
+					if (form == "count" && v > cnt) || (form == "sum" && v > full+1e-6) {
 						kind = "dup"
+					} else {
+						for mask := 1; mask < (1 << len(all)); mask++ {
+							n, sum := 0.0, 0.0
+							for b, s := range all {
+								if mask&(1<<b) != 0 {
+									n++
+									sum += mvisValue(s, i)
+								}
+							}
+							if (form == "count" && v == n) || (form == "sum" && math.Abs(v-sum) < 1e-6) {
+								kind = "loss"
+								break
+							}
+						}
 					}
 					fail(kind, fmt.Sprintf("%s(%s) at index %d = %v: no set of series between the required %v and the possible %v gives it", form, metric, i, v, must, append(append([]int{}, must...), may...)))
 					return
@@ -367,12 +381,27 @@ func cmdMvisStress(c Cmd) (interface{}, error) {
 	}
 	var fmu sync.Mutex
 	fails := []mvisFail{}
-	addFail := func(kind, q, what string) {
+	failIdx := map[string]int{}
+	failCount := map[string]int{}
+	addFail := func(kind, q, what string) { // the first occurrence of every (kind, query) is kept, the others are counted
 		fmu.Lock()
-		if len(fails) < 30 {
+		k := kind + "\x00" + q
+		failCount[k]++
+		if _, ok := failIdx[k]; !ok && len(fails) < 200 {
+			failIdx[k] = len(fails)
 			fails = append(fails, mvisFail{kind, q, what})
 		}
 		fmu.Unlock()
+	}
+	finishFails := func() []mvisFail {
+		fmu.Lock()
+		defer fmu.Unlock()
+		for k, i := range failIdx {
+			if failCount[k] > 1 {
+				fails[i].What += fmt.Sprintf("  (%d occurrences in this run)", failCount[k])
+			}
+		}
+		return fails
 	}
 	put := func(rows [][2]int64) { // rows: (series, index), consecutive per series
 		var sb strings.Builder
@@ -770,7 +799,7 @@ func cmdMvisStress(c Cmd) (interface{}, error) {
 			deadlock = deadlock[:8000]
 		}
 		out["deadlock"] = deadlock
-		out["fails"] = fails
+		out["fails"] = finishFails()
 		return out, nil
 	}
 	// quiescence: wait until the query side has loaded every rotated segment (refresh loop, 5 s period)
@@ -784,13 +813,13 @@ func cmdMvisStress(c Cmd) (interface{}, error) {
 	if pending > 0 {
 		// timing dependent: the caller treats this as an infrastructure problem, not as a verdict
 		out["refresh_timeout"] = pending
-		out["fails"] = fails
+		out["fails"] = finishFails()
 		return out, nil
 	}
 	mvisContents(nMetrics, counts, addFail)
 	if forceFlushAtEnd {
 		metrics.ForceFlushMetricsBlock() // legal once per process life; the caller restarts and runs mvis_verify
 	}
-	out["fails"] = fails
+	out["fails"] = finishFails()
 	return out, nil
 }
